@@ -118,6 +118,18 @@ pub fn eval_from_bytes(bytes: &[u8], version_id: u8) -> EvaluatedScript {
     }
 }
 
+/// `Script::is_multisig()` compares the declared key count n with the number of pushed keys only if the
+/// opcode in the n position is OP_1..OP_16; `OP_m <keys> <any other opcode> OP_CHECKMULTISIG` passes as well.
+/// A bare m-of-n multisig carries a numeric n: the opcode right in front of the final OP_CHECKMULTISIG.
+fn multisig_key_count_is_numeric(script: &Script) -> bool {
+    let bytes = script.as_bytes();
+    if bytes.len() < 2 {
+        return false;
+    }
+    let n = bytes[bytes.len() - 2];
+    opcodes::all::OP_PUSHNUM_1.to_u8() <= n && n <= opcodes::all::OP_PUSHNUM_16.to_u8()
+}
+
 /// Extracts evaluated address from script using `rust_bitcoin`
 pub fn eval_from_bytes_bitcoin(bytes: &[u8], version_id: u8) -> EvaluatedScript {
     let network = match version_id {
@@ -165,7 +177,7 @@ pub fn eval_from_bytes_bitcoin(bytes: &[u8], version_id: u8) -> EvaluatedScript 
         EvaluatedScript::new(address, ScriptPattern::Pay2Taproot)
     } else if script.is_witness_program() {
         EvaluatedScript::new(address, ScriptPattern::WitnessProgram)
-    } else if script.is_multisig() {
+    } else if script.is_multisig() && multisig_key_count_is_numeric(script) {
         EvaluatedScript::new(address, ScriptPattern::Pay2MultiSig)
     } else {
         EvaluatedScript::new(address, ScriptPattern::NotRecognised)
